@@ -2420,6 +2420,8 @@ VARIANTS = [
        "silent"),
     {"name": "seeded-C19-r2m1", "rule": "R19.1", "patch": "seeded/C19-r2m1/patch.diff",
      "expect": "fire"},
+    {"name": "seeded-C19-r3m2", "rule": "R19.1", "patch": "seeded/C19-r3m2/patch.diff",
+     "expect": "fire"},
     # different shape: the alias is taken inside the loop from the first stored map met
     _v("imports-map-aliases-first-stored-map", "R19.1",
        "  imports_map = {}\n  for m in deps:\n    if m in module_to_imports_map:\n",
